@@ -13,16 +13,16 @@ verus! {
 //@ltype Self => L_P
 //@lextern records(L_P) -> (OArr, Option<OArr2>)
 //@lextern from_records(OArr, Option<OArr2>) -> Result<L_P, LErr>
-//@lift feos-core/src/parameter/mod.rs trait:Parameter::subset observe=pure_records,binary_records
+//@lift feos-core/src/parameter/mod.rs trait:Parameter::subset observe=@from_records.0:OArr,@from_records.1:Option<OArr2>
 //@end
 
 pub proof fn contract_c09_2_parameter_subset(p: L_P, list: Seq<int>, i: int, j: int)
     ensures ({
         let pure = records(p).0;
         let binary = records(p).1;
-        let pure2 = subset__pure_records(p, list);
-        let binary2 = subset__binary_records(p, list);
-        // the record tables handed to from_records: exactly the selected components, in the requested order
+        let pure2 = subset__from_records_arg0(p, list);
+        let binary2 = subset__from_records_arg1(p, list);
+        // the record tables handed to from_records (observed at the call, whatever the locals are called): exactly the selected components, in the requested order
         &&& pure2.len == list.len()
         &&& (pure2.at)(i) == (pure.at)(list[i])
         &&& (binary is Some ==> binary2 is Some && binary2->Some_0.n == list.len() && binary2->Some_0.m == list.len()
@@ -34,8 +34,8 @@ pub proof fn contract_c09_2_parameter_subset(p: L_P, list: Seq<int>, i: int, j: 
 {
     let pure = records(p).0;
     let binary = records(p).1;
-    let pure2 = subset__pure_records(p, list);
-    let binary2 = subset__binary_records(p, list);
+    let pure2 = subset__from_records_arg0(p, list);
+    let binary2 = subset__from_records_arg1(p, list);
     let n = list.len() as int;
     let pure_in = OArr { len: n, at: |k__: int| { let i = list[k__]; (pure.at)(i) } };
     assert(pure_in.at =~= pure2.at);
